@@ -34,6 +34,7 @@ type scenario struct {
 	pool   bool // custom Go spawner
 	spawn  string // with pool: "" = `go f()` of the caller's own; "inline" = f() run synchronously by the spawner; "fifo1" = one worker running the functions in hand-over order
 	big    bool // many hook points: explored with one preemption less
+	same   bool // every key of the batch is the same key value (an item written several times in one batch)
 	rf     int  // ReplicationFactor() reported by the ring (0 = largest replica set)
 	ninst  int  // InstancesCount() reported by the ring (0 = number of distinct replicas)
 }
@@ -137,6 +138,10 @@ func scenarios() []scenario {
 	p.name += "+pool"
 	p.pool = true
 	out = append(out, p)
+	// the same key at consecutive positions of one batch: each position needs its own quorum bookkeeping
+	out = append(out, scenario{name: "2x-samekey-3rep-m1", same: true, keys: []keySpec{{[]string{"A", "B", "C"}, 1}, {[]string{"A", "B", "C"}, 1}}},
+		scenario{name: "2x-samekey-3rep-m1+hold", same: true, hold: true, keys: []keySpec{{[]string{"A", "B", "C"}, 1}, {[]string{"A", "B", "C"}, 1}}},
+		scenario{name: "3x-samekey-2rep-m0+hold", same: true, hold: true, keys: []keySpec{{[]string{"A", "B"}, 0}, {[]string{"A", "B"}, 0}, {[]string{"A", "B"}, 0}}})
 	// spawners that run the functions one after the other, in the order they were handed over (a synchronous
 	// spawner; a pool whose single worker is free): every function handed over must be able to finish without
 	// one handed over later having run
@@ -203,6 +208,9 @@ func runOne(t *testing.T, sc scenario, ch *sched.Chooser) (res sched.Result) {
 		keys := make([]uint32, len(sc.keys))
 		for i := range keys {
 			keys[i] = uint32(i)
+			if sc.same {
+				keys[i] = 0 // sc.keys are all alike: the same key at consecutive positions of the batch
+			}
 		}
 		callback := func(in ring.InstanceDesc, idxs []int) error {
 			if sc.spawn == "" {
@@ -494,6 +502,40 @@ func TestC10(t *testing.T) {
 		}
 	}
 	_ = complete
+	if err := rep.Write(); err != nil {
+		t.Fatal(err)
+	}
+}
+
+// TestC02Executor is a part of C02 (not of C10): the intersection argument of C02 takes the write executor's
+// acknowledgement criterion — an item succeeds only with len(replicas)-MaxErrors acknowledgements of ITS OWN
+// replicas — from here, where it is checked on the real DoBatch for the batch shapes the criterion could depend
+// on: one item, several items on shared replicas, the same key at consecutive positions.
+func TestC02Executor(t *testing.T) {
+	rep := ev.NewReport("C02", "write-executor-criterion")
+	keep := map[string]bool{"1key-2rep-m0": true, "1key-3rep-m1": true, "1key-3rep-m1+hold": true, "2keys-2rep-m0": true, "2keys-2rep-m0+hold": true,
+		"2x-samekey-3rep-m1": true, "2x-samekey-3rep-m1+hold": true, "3x-samekey-2rep-m0+hold": true}
+	var scs []scenario
+	var names []string
+	for _, s := range scenarios() {
+		if keep[s.name] {
+			scs = append(scs, s)
+			names = append(names, s.name)
+		}
+	}
+	bound := 2
+	rep.Bound = fmt.Sprintf("write executor (real DoBatchWithOptions) on scenarios %v, every outcome vector, all schedules with <= %d preemptions", names, bound)
+	rep.Rule = "the acknowledging subsets C02 intersects are exactly those the executor accepts: success is reported only when every item of the batch has len(replicas)-MaxErrors acknowledgements at that moment (same oracle as C10); distinct_nontrivial = distinct (scenario, return value, outcome vector)"
+	deadline := ev.Deadline(4 * time.Minute)
+	for _, sc := range scs {
+		x := &sched.Explorer{Bound: bound, Report: rep, Deadline: deadline, Scenario: sc.name,
+			Run: func(c *sched.Chooser) sched.Result { return runOne(t, sc, c) }}
+		if !x.ExploreOrReplay() {
+			rep.NotExhaustive("deadline or violation cap in scenario " + sc.name)
+			break
+		}
+		rep.Sample(fmt.Sprintf("scenario %s: %d executions, %d distinct outcomes", sc.name, x.Execs, x.Outcomes()))
+	}
 	if err := rep.Write(); err != nil {
 		t.Fatal(err)
 	}
